@@ -253,8 +253,8 @@ CLAIMED = {
     text='Theorems about a Gallina model of the partition-name bookkeeping written from the code (Python list.insert/pop with arbitrary integer index, None padding, '
          'negative-index normalisation as in the fix: commit, jnp-style stacking of shapes, the rule loop of _logical_to_mesh_axes): for every rank and every axis '
          'position in [-(r+1), r] the names have one entry per dimension with the partition name exactly where the array gained its axis; remove_axis inverts add_axis '
-         '(both directions); short name tuples are padded; logical_to_mesh never uses a mesh axis twice and later rules never override earlier assignments. Tied to /repo per '
-         'run: every (rank<=4, axis, name-tuple shape) enumerated through Partitioned and nnx.spmd, nested nn.scan/nn.vmap/nnx.scan/nnx.vmap levels, 1500+ rule lists.',
+         '(both directions); short name tuples are padded; logical_to_mesh never uses a mesh axis twice and later rules never override earlier assignments; NNX transform_metadata with a StateAxes (Model/StateAxesMeta.v): under nnx.vmap (one substate per filter) and nnx.scan (only the vectorized substates are kept) every substate whose filter has an integer axis gets the partition name at that axis and every other one is left alone, wherever the broadcast / carry filters stand (the pairing before the fix F34 is refuted by example). Tied to /repo per '
+         'run: every (rank<=4, axis, name-tuple shape) enumerated through Partitioned and nnx.spmd, nested nn.scan/nn.vmap/nnx.scan/nnx.vmap levels, 1500+ rule lists, StateAxes with the filters in every order under nnx.vmap / nnx.scan, nn.add_metadata_axis against nn.vmap.',
     note='Trusted: Coq kernel, vm_compute, harness, jaxcompat. Modelled not verified: where jax stacks the mapped axis. F4 (negative axes) fixed in /repo; the old arithmetic '
          'is refuted by theorem C19_negative_axis_old_refuted. No axioms.',
     technique='Coq proof (list/Z arithmetic with lia, invariants over the rule fold) + per-run model-vs-implementation correspondence by vm_compute',
